@@ -8,7 +8,7 @@ import (
 )
 
 // TestVerifC20 checks that the configured membership's threshold is the quorum function of
-// the replica count, for real configurations with 1..2000 replicas.
+// the replica count, for real configurations with 1..2000 replicas and for memberships with arbitrary ids.
 func TestVerifC20(t *testing.T) {
 	v := verifNew("C20")
 	s := v.Stream("config", "mismatches", 4000)
@@ -29,5 +29,71 @@ func TestVerifC20(t *testing.T) {
 	cfg.AddReplica(&hotstuff.ReplicaInfo{ID: hotstuff.ID(1)})
 	v.Oracle(cfg.ReplicaCount() == maxN, "config:duplicate-id-counted", "re-adding replica 1 changed ReplicaCount", maxN)
 	v.CountN("config_n", maxN)
+	// memberships whose ids are not 1..n: gaps, large ids, descending and shuffled registration order, the
+	// configuration's own id anywhere — the threshold belongs to the NUMBER of members, not to their ids
+	s2 := v.Stream("sparse", "mismatches", 4000)
+	sparse := 0
+	for _, n := range []int{1, 2, 3, 4, 5, 6, 7, 10, 13, 16, 31, 100} {
+		for shape := 0; shape < 8; shape++ {
+			ids := make([]hotstuff.ID, n)
+			for i := range ids {
+				switch shape {
+				case 0: // one gap before the last member
+					ids[i] = hotstuff.ID(i + 1)
+					if i == n-1 {
+						ids[i] = hotstuff.ID(n + 3)
+					}
+				case 1: // every second id
+					ids[i] = hotstuff.ID(2*i + 1)
+				case 2: // starting high
+					ids[i] = hotstuff.ID(1000 + i)
+				case 3: // descending registration order
+					ids[i] = hotstuff.ID(n - i)
+				case 4: // powers of two
+					ids[i] = hotstuff.ID(1) << uint(i%31)
+					if i >= 31 {
+						ids[i] = hotstuff.ID(3_000_000 + i)
+					}
+				case 5: // near the top of the id range
+					ids[i] = hotstuff.ID(4294967295 - uint32(7*i))
+				case 6: // random distinct ids
+					for {
+						c := hotstuff.ID(1 + v.rng.Intn(1<<20))
+						dup := false
+						for _, o := range ids[:i] {
+							dup = dup || o == c
+						}
+						if !dup {
+							ids[i] = c
+							break
+						}
+					}
+				case 7: // 1..n shuffled
+					ids[i] = hotstuff.ID(i + 1)
+				}
+			}
+			if shape == 7 {
+				v.rng.Shuffle(n, func(a, b int) { ids[a], ids[b] = ids[b], ids[a] })
+			}
+			for _, self := range []hotstuff.ID{ids[0], ids[n-1]} {
+				c := NewRuntimeConfig(self, nil)
+				for k, id := range ids {
+					c.AddReplica(&hotstuff.ReplicaInfo{ID: id})
+					if k%3 == 0 {
+						c.AddReplica(&hotstuff.ReplicaInfo{ID: id}) // the same member announced twice
+					}
+					m := k + 1
+					cq := c.QuorumSize()
+					meta := map[string]any{"ids_in_registration_order": fmt.Sprint(ids[:m]), "own_id": self, "members": m, "replica_count": c.ReplicaCount(), "config_quorum": cq}
+					v.Seen(fmt.Sprintf("sparse %d/%d/%d/%d", n, shape, self, m), m >= 4, meta)
+					v.Oracle(c.ReplicaCount() == m, "config:replica-count-differs-from-membership", fmt.Sprintf("ReplicaCount()=%d for the %d members %v", c.ReplicaCount(), m, ids[:m]), meta)
+					v.Oracle(cq == hotstuff.QuorumSize(m), "config:threshold-differs", fmt.Sprintf("RuntimeConfig.QuorumSize()=%d for the %d members %v, QuorumSize(%d)=%d", cq, m, ids[:m], m, hotstuff.QuorumSize(m)), meta)
+					v.Case(s2, fmt.Sprintf("(%s,%s,%s,%s)", gZ(int64(m)), gZ(int64(hotstuff.NumFaulty(m))), gZ(int64(hotstuff.QuorumSize(m))), gZ(int64(cq))), meta)
+					sparse++
+				}
+			}
+		}
+	}
+	v.CountN("config_sparse_memberships", sparse)
 	v.Close("RuntimeConfig with n = 1..N replicas; non-trivial = n >= 4")
 }
